@@ -6,6 +6,8 @@ variation the governing RFC declares insignificant for that type; oracle: parse(
 """
 import itertools
 import json
+import os
+import sys
 
 from mc import canon, classes, core, objects
 
@@ -344,6 +346,136 @@ def _block_worker(_):
     return acc.result()
 
 
+# ---- histories: spellings of type B judged in a pristine interpreter that parsed type A first -------------------
+def history_panel(per_type_values, per_value_variants):
+    """{class qualified name: [(canonical text, [variant text...])]}: for every type, the canonical spellings of the
+    first values of its seed neighbourhoods (most elements first) with their one-row variants."""
+    so = objects.seed_objects()
+    out = {}
+    for cname, sep, fixed, rows, clause in TYPES:
+        cls = [c for c in classes.parsable_classes() if c.__name__ == cname]
+        if not cls:
+            continue
+        cls = cls[0]
+        texts = []
+        for seed in so.get(cls, []):
+            for path, o, stats in objects.neighbourhood(seed, 1, False, 120):
+                try:
+                    c = bytes(o.compose())
+                    cls.parse_exact_size(c)
+                    t = c.decode('ascii')
+                except Exception:  # noqa
+                    continue
+                if t not in texts:
+                    texts.append(t)
+        texts.sort(key=lambda t: (-len(split_top(t, sep)), len(t), t))
+        vals = []
+        for t in texts[:per_type_values]:
+            vs = []
+            for combo, v in variants_of(t, sep, fixed, rows, 1):
+                if v not in vs and v != t:
+                    vs.append(v)
+                if len(vs) >= per_value_variants:
+                    break
+            vals.append((t, vs))
+        out[classes.qualname(cls)] = vals
+    return out
+
+
+def history_child():
+    """Child interpreter (python -m mc.props.c18 --history): reads {'first': [[qn, text]...], 'then': [[qn, text]...]}
+    from stdin, parses the 'first' inputs (outcome ignored), then prints one line per 'then' input: digest of the
+    canonical dump of the parsed object, or EXC:<type>.  Nothing else is parsed in this process."""
+    import hashlib
+    import json
+    core.import_repo()
+    job = json.load(sys.stdin)
+    for qn, text in job['first']:
+        try:
+            classes.class_by_name(qn).parse_exact_size(text.encode('ascii'))
+        except Exception:  # noqa
+            pass
+    for qn, text in job['then']:
+        try:
+            o = classes.class_by_name(qn).parse_exact_size(text.encode('ascii'))
+            d = hashlib.md5(repr(canon.dump(o, eq=True)).encode()).hexdigest()[:16]
+            try:
+                if bytes(classes.class_by_name(qn).parse_exact_size(bytes(o.compose())).compose()) != bytes(o.compose()):
+                    d += ':unstable'
+            except Exception as e:  # noqa
+                d += ':recompose:' + type(e).__name__
+        except Exception as e:  # noqa
+            d = 'EXC:' + type(e).__name__
+        sys.stdout.write(d + '\n')
+
+
+def _history_worker(args):
+    import json
+    import subprocess
+    a_qn, b_qn, first, then = args
+    acc = core.Acc()
+    out = subprocess.run([sys.executable, '-m', 'mc.props.c18', '--history'], cwd=core.VERIF,
+                         input=json.dumps({'first': first, 'then': then}).encode(), stdout=subprocess.PIPE,
+                         stderr=subprocess.PIPE, timeout=600, env=dict(os.environ, PYTHONHASHSEED='0', TZ='UTC'))
+    if out.returncode != 0:
+        raise RuntimeError('history child failed: %s' % out.stderr.decode()[-400:])
+    lines = out.stdout.decode().split('\n')[:-1]
+    if len(lines) != len(then):
+        raise RuntimeError('history child printed %d lines for %d inputs' % (len(lines), len(then)))
+    acc.counters['transitions'] = len(then)
+    acc.counters['history_processes'] = 1
+    acc.state(core.h64('history', a_qn, b_qn))
+    return acc.counters, [], [], acc.states if hasattr(acc, 'states') else set(), lines
+
+
+def histories(ctx, per_type_values, per_value_variants):
+    """For every ordered pair (A, B) of types and for B alone: a pristine interpreter parses A's canonical spellings,
+    then every panel spelling of B; the outcome of each spelling must not depend on A (and all spellings of one value
+    agree, which the single-process exploration already judges)."""
+    import multiprocessing
+    panel = history_panel(per_type_values, per_value_variants)
+    qns = sorted(panel)
+    jobs = []
+    for b in qns:
+        then = []
+        for t, vs in panel[b]:
+            then.append([b, t])
+            then += [[b, v] for v in vs]
+        if not then:
+            continue
+        for a in [None] + qns:
+            if a == b:
+                continue
+            first = [[a, t] for t, vs in panel[a]] if a else []
+            jobs.append((a, b, first, then))
+    pool = multiprocessing.get_context('fork').Pool(core.NPROC)
+    try:
+        res = pool.map(_history_worker, jobs)
+    finally:
+        pool.terminate()
+        pool.join()
+    base = {}
+    for (a, b, first, then), r in zip(jobs, res):
+        ctx.merge_counts(r[0])
+        ctx.state_hashes.add(core.h64('history', a, b))
+        if a is None:
+            base[b] = r[4]
+    for (a, b, first, then), r in zip(jobs, res):
+        if a is None:
+            continue
+        for (qn, text), d0, d1 in zip(then, base[b], r[4]):
+            if d0 != d1:
+                ctx.violation({'signature': 'history:%s:after:%s' % (b.rsplit('.', 1)[1], a.rsplit('.', 1)[1]),
+                               'what': 'parsing %r as %s gives %s in a fresh process but %s after %s values were '
+                                       'parsed in the same process' % (text, b.rsplit('.', 1)[1], d0, d1,
+                                                                     a.rsplit('.', 1)[1]),
+                               'witness': {'kind': 'history', 'first': first, 'then': [qn, text], 'alone': d0,
+                                           'after': d1}})
+                break
+    ctx.sample({'kind': 'history', 'types': len(qns), 'processes': len(jobs),
+                'spellings_per_type': {q.rsplit('.', 1)[1]: sum(1 + len(vs) for t, vs in panel[q]) for q in qns}})
+
+
 def run(ctx):
     max_rows = 2 if ctx.quick else 3
     cap = 600 if ctx.quick else 20000
@@ -359,6 +491,7 @@ def run(ctx):
     ctx.pmap(_type_worker, items)
     ctx.pmap(_nel_worker, [0], nproc=1)
     ctx.pmap(_block_worker, [0], nproc=1)
+    histories(ctx, 6 if ctx.quick else 40, 12 if ctx.quick else 60)
     if ctx.counters.get('capped_values'):
         ctx.cap('per-value variant cap %d hit for %d values' % (cap, ctx.counters['capped_values']))
     ctx.notes['variation_rows'] = {t[0]: {'rows': list(t[3]), 'clause': t[4]} for t in TYPES}
@@ -369,7 +502,10 @@ def run(ctx):
                            '<= %d variation rows applied at once (case patterns x4, whitespace around separators x15, around '
                            '"=", empty elements, trailing separator, every permutation of <= 4 free elements, quoted '
                            'token, unknown directive at every position), capped at %d spellings per value; NEL JSON member '
-                           'orders x whitespace; header blocks of <= 3 fields x name case x OWS' % (max_rows, cap))
+                           'orders x whitespace; header blocks of <= 3 fields x name case x OWS; histories: for every '
+                           'ordered pair of types a pristine interpreter parses the first type, then a panel of '
+                           'spellings of the second - outcomes must equal those of the second type alone'
+                           % (max_rows, cap))
 
 
 def replay(ctx, w):
@@ -388,5 +524,18 @@ def replay(ctx, w):
             return {'signature': 'spelling:%s:%s:differs:%s' % (cname, '+'.join(w['rows']), canon.generic_path_leaf(d0, d1)),
                     'what': 'differs', 'witness': w}
         return None
+    if w['kind'] == 'history':
+        a = w['first'][0][0] if w['first'] else None
+        r0 = _history_worker((None, w['then'][0], [], [w['then']]))
+        r1 = _history_worker((a, w['then'][0], w['first'], [w['then']]))
+        if r0[4] != r1[4]:
+            return {'signature': 'history:%s:after:%s' % (w['then'][0].rsplit('.', 1)[1], a.rsplit('.', 1)[1]),
+                    'what': 'outcome depends on what was parsed before', 'witness': w}
+        return None
     res = _nel_worker(0) if w['kind'] == 'nel' else _block_worker(0)
     return res[1][0] if res[1] else None
+
+
+if __name__ == '__main__':
+    if len(sys.argv) > 1 and sys.argv[1] == '--history':
+        history_child()
